@@ -179,6 +179,22 @@ def run(run):
             else:
                 run.bad("C16.L4", "deepest-first", where(fit[0][1]),
                         "enclose_deep_first tests the shape itself before (or without) trying its children: dominance next->can_fit=%s, can_fit-before-children=%s, loop-after-fit=%s" % (c1, not c2, not c3))
+            # every child is offered the candidate: the loop iterates self.enclosing directly (no filter/skip/take adaptor)
+            adaptors = set()
+            def _coll(z):
+                if z[0] in ("call", "mutated_by"):
+                    adaptors.add(z[1])
+                return False
+            mentions(ex.operand(nxt[0][1]["args"][0]), _coll)
+            alien = sorted(a for a in adaptors if not re.search(
+                r"IntoIterator>::into_iter$|IntoIterator::into_iter$|::iter_mut$|::iter$|Deref(Mut)?>::deref(_mut)?$|Iterator::rev$|Iterator>::next$|Iterator::next$", a))
+            child = strip(ex.operand(rec[0][1]["args"][0]))
+            from_next = mentions(child, lambda z: z[0] == "call" and z[1].endswith("Iterator>::next")) or mentions(child, lambda z: z[0] == "call" and z[1].endswith("Iterator::next"))
+            if alien or not from_next:
+                run.bad("C16.L4", "children-skipped", where(nxt[0][1]),
+                        "enclose_deep_first does not offer the tag to every enclosed child: the child iteration goes through %s" % ([short(a) for a in alien] or "something that is not the loop item"))
+            else:
+                run.ok("C16.L4", "every enclosed child is offered the candidate (plain iteration over self.enclosing)", where(nxt[0][1]))
             ra = strip(ex.operand(rec[0][1]["args"][1]))
             if ra == ("param", 2, ()):
                 run.ok("C16.L4", "recursion passes the same candidate to each child", where(rec[0][1]), nontrivial=False)
